@@ -163,6 +163,7 @@ func (b *bare) run(in Input) (obs Obs) {
 	b.seq++
 	id := uid.New()
 	b.cap.setEnv(id.String())
+	b.consul.Set("o2/runtime/run_number", "0")
 	wf := buildWorkflow(in.Hooks)
 	env, err := environment.VerifC08NewEnvironment(id, map[string]string{}, wf, in.Init)
 	if err != nil {
@@ -186,7 +187,7 @@ func (b *bare) run(in Input) (obs Obs) {
 		op := curOp
 		for _, hid := range ids {
 			if op.TaskOut[strconv.Itoa(hid)] == "trigfail" {
-				return errors.New("verif trigger failed " + failToken(hid, rec.op))
+				return errors.New("verif trigger failed")
 			}
 		}
 		// simulated executors: deliver the scripted terminations in id order; the late ones after
@@ -273,9 +274,29 @@ func (b *bare) run(in Input) (obs Obs) {
 	}
 	// let call goroutines that are still sleeping finish, so that their records do not leak into
 	// the next case
-	time.Sleep(slowDelay + time.Millisecond)
+	waitQuiet(rec)
 	obs.Recs = rec.Records()
 	return
+}
+
+// waitQuiet waits until every probe function that began has returned.
+func waitQuiet(rec *Recorder) {
+	deadline := time.Now().Add(3 * time.Second)
+	for {
+		n := 0
+		for _, r := range rec.Records() {
+			switch r.Kind {
+			case "S":
+				n++
+			case "E":
+				n--
+			}
+		}
+		if n == 0 || time.Now().After(deadline) {
+			return
+		}
+		time.Sleep(200 * time.Microsecond)
+	}
 }
 
 func mkTransition(name string, op *Op, rec *Recorder) environment.VerifC08Transition {
